@@ -104,23 +104,28 @@ func (l *Lexer) Position() token.Position {
 // Next returns the next Token from the input that is being lexed.
 func (l *Lexer) Next() (token.Token, error) {
 	var tok token.Token
-	l.skipTabsAndSpaces()
+	// Step over blanks and comments, of both kinds and in any order, until a
+	// token starts. This is a loop and not a call of Next for each comment:
+	// the number of comments in a row is up to the input.
+	for {
+		l.skipTabsAndSpaces()
+
+		// skip single-line comments
+		if l.ch == rune('#') ||
+			(l.ch == rune('/') && l.peekChar() == rune('/')) {
+			l.skipComment()
+			continue
+		}
+
+		// multi-line comments
+		if l.ch == rune('/') && l.peekChar() == rune('*') {
+			l.skipMultiLineComment()
+			continue
+		}
+		break
+	}
+	// The token start position is recorded after the last comment
 	l.tokenStartPosition = l.Position()
-
-	// skip single-line comments
-	if l.ch == rune('#') ||
-		(l.ch == rune('/') && l.peekChar() == rune('/')) {
-		l.skipComment()
-		return l.Next()
-	}
-
-	// multi-line comments
-	if l.ch == rune('/') && l.peekChar() == rune('*') {
-		l.skipMultiLineComment()
-		// Start over so that the token start position is recorded after the
-		// comment, and so that another comment may follow this one
-		return l.Next()
-	}
 
 	if l.prevToken.Type == token.EOF {
 		// Once we encounter one null byte, stop reading the input
